@@ -131,6 +131,43 @@ namespace
                 L->alive.erase(it);
         }
     };
+    // like Boom, but the default constructor is noexcept (and cannot fail): whether the *selected*
+    // constructor may throw must not be derived from the default constructor
+    struct Boom2
+    {
+        uint32_t v;
+        void born()
+        {
+            ++L->creations;
+            if (L->fail_at && L->creations == L->fail_at)
+                throw boom_fail{L->creations};
+            if (L->alive.count(this))
+                L->bad("object constructed on top of a live object");
+            L->alive[this] = 1;
+        }
+        Boom2() noexcept : v(7)
+        {
+            L->alive[this] = 1; // not a faultable creation
+        }
+        explicit Boom2(uint32_t x) : v(x)
+        {
+            born();
+        }
+        Boom2(const Boom2& o) : v(o.v)
+        {
+            born();
+        }
+        Boom2(Boom2&& o) : v(o.v)
+        {
+            born();
+        }
+        ~Boom2()
+        {
+            ++L->destructions;
+            if (!L->alive.erase(this))
+                L->bad("destructor ran on an object that is not alive (destroyed twice or never constructed)");
+        }
+    };
     // default constructor is noexcept: allocate_unique<T[]> takes its non-guarded path
     struct BoomNE
     {
@@ -321,6 +358,10 @@ namespace
             return arr.size() == o.arr.size()
                    && (arr.size() == 0 || std::memcmp(arr.data(), o.arr.data(), arr.size() * sizeof(E)) == 0);
         }
+        bool mutate(unsigned, unsigned)
+        {
+            return false; // joint_array has a fixed size
+        }
         static size_t need(size_t n, size_t)
         {
             return n * sizeof(E);
@@ -386,6 +427,10 @@ namespace
             return arr.size() == o.arr.size()
                    && (arr.size() == 0 || std::memcmp(arr.data(), o.arr.data(), arr.size() * sizeof(E)) == 0);
         }
+        bool mutate(unsigned, unsigned)
+        {
+            return false; // joint_array has a fixed size
+        }
     };
     template <class E1, class E2>
     struct JB : fm::joint_type<JB<E1, E2>>
@@ -415,6 +460,10 @@ namespace
             return a1.size() == o.a1.size() && a2.size() == o.a2.size()
                    && (!a1.size() || !std::memcmp(a1.data(), o.a1.data(), a1.size() * sizeof(E1)))
                    && (!a2.size() || !std::memcmp(a2.data(), o.a2.data(), a2.size() * sizeof(E2)));
+        }
+        bool mutate(unsigned, unsigned)
+        {
+            return false;
         }
     };
     template <class E>
@@ -447,6 +496,40 @@ namespace
             return vec.size() == o.vec.size()
                    && (vec.empty() || !std::memcmp(vec.data(), o.vec.data(), vec.size() * sizeof(E)));
         }
+        // container operations after construction: every one allocates and/or releases joint memory
+        // while other pieces of the object are live (out_of_fixed_memory leaves the container as it was)
+        bool mutate(unsigned how, unsigned k)
+        {
+            try
+            {
+                switch (how % 4)
+                {
+                case 0:
+                    for (unsigned i = 0; i <= k % 40; ++i)
+                        vec.push_back(E{});
+                    break;
+                case 1:
+                    vec.shrink_to_fit();
+                    break;
+                case 2:
+                {
+                    vec_t tmp(vec.get_allocator());
+                    vec.swap(tmp); // the old buffer is released when tmp dies
+                    break;
+                }
+                default:
+                    vec.clear();
+                    vec.reserve(1 + k % 9);
+                }
+            }
+            catch (fm::out_of_fixed_memory&)
+            {
+            }
+            catch (std::length_error&)
+            {
+            }
+            return true;
+        }
     };
     struct JM : fm::joint_type<JM>
     {
@@ -476,7 +559,10 @@ namespace
         {
             out.push_back({reinterpret_cast<const char*>(vec.data()), vec.capacity() * 4, 4});
             out.push_back({reinterpret_cast<const char*>(arr.data()), arr.size() * 2, 2});
-            out.push_back({str.data(), str.capacity() + 1, 1});
+            // a short string lives in the string object itself (no joint memory)
+            auto self = reinterpret_cast<const char*>(this);
+            bool sso  = str.data() >= self && str.data() < self + sizeof(JM);
+            out.push_back({str.data(), sso ? 0 : str.capacity() + 1, 1});
         }
         void fill(unsigned char seed)
         {
@@ -491,6 +577,46 @@ namespace
         {
             return vec == o.vec && str == o.str && arr.size() == o.arr.size()
                    && (!arr.size() || !std::memcmp(arr.data(), o.arr.data(), arr.size() * 2));
+        }
+        bool mutate(unsigned how, unsigned k)
+        {
+            try
+            {
+                switch (how % 6)
+                {
+                case 0:
+                    for (unsigned i = 0; i <= k % 40; ++i)
+                        vec.push_back(i);
+                    break;
+                case 1:
+                    vec.shrink_to_fit();
+                    break;
+                case 2:
+                {
+                    vec_t tmp(vec.get_allocator());
+                    vec.swap(tmp);
+                    break;
+                }
+                case 3:
+                    str.append(1 + k % 50, 'y');
+                    break;
+                case 4:
+                    str.shrink_to_fit();
+                    break;
+                default:
+                {
+                    str_t tmp(str.get_allocator());
+                    str.swap(tmp);
+                }
+                }
+            }
+            catch (fm::out_of_fixed_memory&)
+            {
+            }
+            catch (std::length_error&)
+            {
+            }
+            return true;
         }
     };
 
@@ -518,7 +644,16 @@ namespace
         using ptr_t = fm::joint_ptr<J, OLeaf>;
         std::vector<std::unique_ptr<ptr_t>> slots;
         std::vector<unsigned char>          seeds;
+        // memory obtained from joint_allocator(object) after construction: dies with the object
+        struct Piece
+        {
+            char*         p;
+            size_t        n, align;
+            unsigned char pat;
+        };
+        std::vector<std::vector<Piece>> dyn;
         unsigned n_created = 0, n_exact = 0, n_overflow = 0, n_clone_mut = 0, n_multi = 0;
+        unsigned n_dyn = 0, n_dyn_refused = 0, n_dyn_nonlast = 0, n_mutate_live = 0;
         int      dtors = 0;
         bool     allow_known = false;
 
@@ -529,6 +664,7 @@ namespace
             {
                 slots.emplace_back(new ptr_t(leafA));
                 seeds.push_back(0);
+                dyn.emplace_back();
             }
         }
         size_t out_of(int owner)
@@ -558,6 +694,10 @@ namespace
             const char* hi = blk->addr + blk->bytes;
             std::vector<Range> rs;
             obj->ranges(rs);
+            for (size_t sl = 0; sl < slots.size(); ++sl)
+                if (slots[sl].get() == &p)
+                    for (auto& d : dyn[sl])
+                        rs.push_back({d.p, d.n, d.align});
             for (size_t i = 0; i < rs.size(); ++i)
             {
                 if (rs[i].n == 0)
@@ -634,6 +774,7 @@ namespace
             int    owner  = Slab::get().find_block(sp.get()) ? Slab::get().find_block(sp.get())->owner : 0;
             size_t before = out_of(owner);
             int    d0     = dtors;
+            dyn[slot].clear();
             sp.reset();
             if (dtors != d0 + 1)
                 fail("destroy-count", "reset destroyed the object " + std::to_string(dtors - d0) + " times");
@@ -755,11 +896,13 @@ namespace
                     reset(to);
                     *slots[to] = std::move(sp);
                     std::swap(seeds[to], seeds[slot]);
+                    std::swap(dyn[to], dyn[slot]);
                 }
                 else
                 {
                     swap(*slots[to], sp);
                     std::swap(seeds[to], seeds[slot]);
+                    std::swap(dyn[to], dyn[slot]);
                 }
                 break;
             }
@@ -770,16 +913,157 @@ namespace
                 {
                     // = nullptr
                     int d0 = dtors;
+                    dyn[slot].clear();
                     sp     = nullptr;
                     if (dtors != d0 + 1)
                         fail("destroy-count", "= nullptr destroyed the object " + std::to_string(dtors - d0) + " times");
                 }
                 break;
+            case 5: // allocation through joint_allocator(object) after construction
+            {
+                if (!sp)
+                {
+                    ++ci.noops;
+                    break;
+                }
+                static const size_t dsz[] = {1, 2, 3, 4, 5, 7, 8, 12, 16, 24, 33, 64, 100};
+                size_t size = dsz[o.a % 13], align = size_t(1) << (o.b % 5);
+                auto   blk = Slab::get().find_block(sp.get());
+                if (!blk)
+                    break;
+                auto&     st  = fm::detail::get_stack(*sp);
+                uintptr_t top = reinterpret_cast<uintptr_t>(st.top());
+                uintptr_t end = reinterpret_cast<uintptr_t>(blk->addr + blk->bytes);
+                uintptr_t at  = (top + align - 1) & ~uintptr_t(align - 1);
+                bool      fits = at <= end && size <= end - at;
+                auto      snap = snapshot(slot);
+                fm::joint_allocator a(*sp);
+                void*               mem   = nullptr;
+                bool                threw = false;
+                try
+                {
+                    mem = (o.b / 5) % 2 ? fm::allocator_traits<fm::joint_allocator>::allocate_array(a, 1, size, align) :
+                                          a.allocate_node(size, align);
+                }
+                catch (fm::out_of_fixed_memory&)
+                {
+                    threw = true;
+                }
+                if (threw && fits)
+                    fail("fit-refused", "joint_allocator refused " + std::to_string(size) + " bytes at alignment "
+                                            + std::to_string(align) + " although " + std::to_string(end - top)
+                                            + " bytes are left");
+                else if (!threw && !fits)
+                    fail("overrun-not-refused", "joint_allocator served " + std::to_string(size) + " bytes at alignment "
+                                                    + std::to_string(align) + " with only " + std::to_string(end - top)
+                                                    + " bytes left");
+                else if (!threw && !mem)
+                    fail("null", "joint_allocator returned null");
+                else if (!threw)
+                {
+                    unsigned char pat = static_cast<unsigned char>(0x31 + 7 * n_dyn);
+                    dyn[slot].push_back({static_cast<char*>(mem), size, align, pat});
+                    check_object(sp, blk->size - sizeof(J)); // inside the block, aligned, disjoint from every live piece
+                    if (!fail.failed)
+                        std::memset(mem, pat, size);
+                    ++n_dyn;
+                }
+                else
+                    ++n_dyn_refused;
+                if (!fail.failed)
+                    compare(slot, snap, "an allocation");
+                break;
+            }
+            case 6: // release of any live piece (only the last one can really be reclaimed)
+            {
+                if (!sp || dyn[slot].empty())
+                {
+                    ++ci.noops;
+                    break;
+                }
+                size_t idx = o.a % dyn[slot].size();
+                Piece  d   = dyn[slot][idx];
+                if (!check_pattern(slot))
+                    break;
+                dyn[slot].erase(dyn[slot].begin() + long(idx));
+                bool others_live = !dyn[slot].empty();
+                auto snap        = snapshot(slot);
+                fm::joint_allocator a(*sp);
+                if (o.b % 2)
+                    fm::allocator_traits<fm::joint_allocator>::deallocate_array(a, d.p, 1, d.n, d.align);
+                else
+                    a.deallocate_node(d.p, d.n, d.align);
+                compare(slot, snap, "the release of another piece");
+                if (others_live && idx != dyn[slot].size())
+                    ++n_dyn_nonlast;
+                break;
+            }
+            case 7: // container operations of the object itself while pieces are live
+            {
+                if (!sp)
+                {
+                    ++ci.noops;
+                    break;
+                }
+                if (!check_pattern(slot))
+                    break;
+                if (!sp->mutate(o.a, o.b))
+                {
+                    ++ci.noops;
+                    break;
+                }
+                auto blk = Slab::get().find_block(sp.get());
+                if (blk)
+                    check_object(sp, blk->size - sizeof(J));
+                check_pattern(slot);
+                sp->fill(seeds[slot]);
+                check_pattern(slot);
+                if (!dyn[slot].empty())
+                    ++n_mutate_live;
+                break;
+            }
             default:
                 ++ci.noops;
             }
             if (!fail.failed && Slab::get().last_error())
                 fail("release-shape", Slab::get().last_error());
+        }
+        // bytes of every live piece of the object in a slot (members' ranges + later pieces)
+        std::vector<std::string> snapshot(size_t slot)
+        {
+            std::vector<Range> rs;
+            (*slots[slot])->ranges(rs);
+            for (auto& d : dyn[slot])
+                rs.push_back({d.p, d.n, d.align});
+            std::vector<std::string> out;
+            for (auto& r : rs)
+                out.emplace_back(r.p, r.n);
+            return out;
+        }
+        void compare(size_t slot, const std::vector<std::string>& snap, const char* what)
+        {
+            std::vector<Range> rs;
+            (*slots[slot])->ranges(rs);
+            for (auto& d : dyn[slot])
+                rs.push_back({d.p, d.n, d.align});
+            for (size_t i = 0; i < rs.size() && i < snap.size(); ++i)
+                if (rs[i].n == snap[i].size() && rs[i].n && std::memcmp(rs[i].p, snap[i].data(), rs[i].n) != 0)
+                {
+                    fail("live-memory-changed", std::string(what) + " changed the bytes of a live joint allocation (piece "
+                                                    + std::to_string(i) + " of " + std::to_string(rs.size()) + ")");
+                    return;
+                }
+        }
+        bool check_pattern(size_t slot)
+        {
+            for (auto& d : dyn[slot])
+                for (size_t i = 0; i < d.n; ++i)
+                    if (static_cast<unsigned char>(d.p[i]) != d.pat)
+                    {
+                        fail("live-memory-changed", "a live piece obtained from joint_allocator lost its contents");
+                        return false;
+                    }
+            return true;
         }
         void finish()
         {
@@ -787,7 +1071,16 @@ namespace
                 reset(i);
             if (!fail.failed && (out_of(21) || out_of(22)))
                 fail("leak", "joint blocks left outstanding");
-            ci.nontrivial = n_multi > 0 || n_exact > 0 || n_overflow > 0 || n_clone_mut > 0;
+            ci.nontrivial = n_multi > 0 || n_exact > 0 || n_overflow > 0 || n_clone_mut > 0 || n_dyn_nonlast > 0
+                            || n_mutate_live > 0;
+            if (n_dyn)
+                ci.classes.insert("post-construction-allocation");
+            if (n_dyn_refused)
+                ci.classes.insert("post-construction-refused");
+            if (n_dyn_nonlast)
+                ci.classes.insert("release-not-last");
+            if (n_mutate_live)
+                ci.classes.insert("container-op-with-live-pieces");
             if (n_exact)
                 ci.classes.insert("exact-fit");
             if (n_overflow)
@@ -875,8 +1168,39 @@ namespace
             {
             case H_unique:
             {
+                // the constructor selected by the arguments: converting, default, copy, move; for an
+                // element type all of whose constructors may throw and for one with a noexcept default
+                ledger.fail_at = 0;
+                Boom  b1(9u), b2(10u);
+                Boom2 c1(9u), c2(10u);
                 arm(k);
-                auto p = fm::allocate_unique<Boom>(leaf, 5u);
+                switch (n % 8)
+                {
+                case 0:
+                    (void)fm::allocate_unique<Boom>(leaf, 5u);
+                    break;
+                case 1:
+                    (void)fm::allocate_unique<Boom>(leaf);
+                    break;
+                case 2:
+                    (void)fm::allocate_unique<Boom>(leaf, static_cast<const Boom&>(b1));
+                    break;
+                case 3:
+                    (void)fm::allocate_unique<Boom>(leaf, std::move(b2));
+                    break;
+                case 4:
+                    (void)fm::allocate_unique<Boom2>(leaf, 5u);
+                    break;
+                case 5:
+                    (void)fm::allocate_unique<Boom2>(leaf);
+                    break;
+                case 6:
+                    (void)fm::allocate_unique<Boom2>(leaf, static_cast<const Boom2&>(c1));
+                    break;
+                default:
+                    (void)fm::allocate_unique<Boom2>(leaf, std::move(c2));
+                }
+                ledger.fail_at = 0;
                 break;
             }
             case H_unique_array:
@@ -887,8 +1211,37 @@ namespace
             }
             case H_shared:
             {
+                ledger.fail_at = 0;
+                Boom  b1(9u), b2(10u);
+                Boom2 c1(9u), c2(10u);
                 arm(k);
-                auto p = fm::allocate_shared<Boom>(leaf, 5u);
+                switch (n % 8)
+                {
+                case 0:
+                    (void)fm::allocate_shared<Boom>(leaf, 5u);
+                    break;
+                case 1:
+                    (void)fm::allocate_shared<Boom>(leaf);
+                    break;
+                case 2:
+                    (void)fm::allocate_shared<Boom>(leaf, static_cast<const Boom&>(b1));
+                    break;
+                case 3:
+                    (void)fm::allocate_shared<Boom>(leaf, std::move(b2));
+                    break;
+                case 4:
+                    (void)fm::allocate_shared<Boom2>(leaf, 5u);
+                    break;
+                case 5:
+                    (void)fm::allocate_shared<Boom2>(leaf);
+                    break;
+                case 6:
+                    (void)fm::allocate_shared<Boom2>(leaf, static_cast<const Boom2&>(c1));
+                    break;
+                default:
+                    (void)fm::allocate_shared<Boom2>(leaf, std::move(c2));
+                }
+                ledger.fail_at = 0;
                 break;
             }
             case H_unique_array_noexcept:
@@ -966,6 +1319,8 @@ namespace
             unsigned total = ledger.creations - c0;
             if (h == H_joint_copy || h == H_joint_move || h == H_clone)
                 total -= unsigned(n); // the source object's own elements are not part of the helper
+            if (h == H_unique || h == H_shared)
+                total -= 4; // the four source objects for the copy / move forms
             if (ledger.alive.size() != live0)
                 fail("success-unbalanced", std::string(hnames[h]) + ": objects still alive after the owner died");
             if (Slab::get().outstanding_of(31) != out0)
@@ -1119,9 +1474,11 @@ namespace
             if (property == "C11")
             {
                 out.max_ops = 30;
-                out.kinds   = {{"create_measure", 6}, {"create_small", 2}, {"clone", 4}, {"move", 3}, {"reset", 2}};
+                out.kinds   = {{"create_measure", 6}, {"create_small", 2}, {"clone", 4}, {"move", 3}, {"reset", 2},
+                               {"dyn_alloc", 7}, {"dyn_release", 4}, {"container_op", 4}};
                 out.rule    = "additional size > 0 with >= 2 members, or an exact-fit / one-byte-short creation, or a "
-                              "clone followed by mutation";
+                              "clone followed by mutation, or the release of a piece that is not the last allocation "
+                              "while others are live, or a container operation while later pieces are live";
                 return true;
             }
             return false;
